@@ -306,10 +306,69 @@ inline Value runPathCase(const Value& cs, const std::string& tmp)
   return rec;
 }
 
+// history case (classes with a Db part): two objects built from their recipes, then the steps of the history emitted by
+// TLC (MC_NeutralHist) -- del: deleteColumnByColIdx, add: addColumns, write: dumpToNF -- all in this process.  For every
+// write: the token stream of the file, the projection of the object at that moment, and what createFromNF gives back.
+inline Db* asDb(const std::string& cls, void* p)
+{
+  if (cls == "Db") return (Db*)p;
+  if (cls == "DbGrid") return static_cast<Db*>((DbGrid*)p);
+  if (cls == "DbLine") return static_cast<Db*>((DbLine*)p);
+  if (cls == "DbGraphO") return static_cast<Db*>((DbGraphO*)p);
+  return nullptr;
+}
+inline Value runHistCase(const Value& cs, const std::string& tmp)
+{
+  const std::string& cls = cs.at("cls").s();
+  Value rec = Value::object();
+  rec["id"] = cs.at("id");
+  rec["c"] = Value("Hist");
+  auto it = registry().find(cls);
+  if (it == registry().end()) throw std::runtime_error("no handler for class " + cls);
+  Handler& h = it->second;
+  ASerializable::unsetContainerName();
+  ASerializable::unsetPrefixName();
+  defineDefaultSpace(ESpaceType::RN, h.ndim(cs.at("o1")));
+  void* obj[2] = {h.build(cs.at("o1")), h.build(cs.at("o2"))};
+  rec["built"] = Value(obj[0] != nullptr && obj[1] != nullptr);
+  Value writes = Value::array();
+  if (obj[0] && obj[1])
+  {
+    std::string f1 = tmp + "/h.nf";
+    for (auto& st : cs.at("steps").arr)
+    {
+      const std::string& op = st.at("op").s();
+      int i = st.at("i").i() - 1;
+      Db* db = asDb(cls, obj[i]);
+      if (op == "del") db->deleteColumnByColIdx(st.at("k").i() - 1);
+      else if (op == "add") db->addColumns(nums(st.at("vals")), st.at("name").s());
+      else
+      {
+        Value w = Value::object();
+        unlink(f1.c_str());
+        w["p"] = h.proj(obj[i]);
+        bool okd = h.dump(obj[i], f1);
+        std::string text = readAll(f1);
+        w["dump"] = Value(okd && !text.empty());
+        w["toks"] = tokenize(text);
+        void* re = h.load(f1);
+        w["reload"] = Value(re != nullptr);
+        if (re) { w["p1"] = h.proj(re); h.destroy(re); }
+        writes.push(w);
+      }
+    }
+    unlink(f1.c_str());
+  }
+  rec["writes"] = writes;
+  for (void* p : obj) if (p) h.destroy(p);
+  return rec;
+}
+
 inline Value runCase(const Value& cs, const std::string& tmp)
 {
   const std::string& cls = cs.at("c").s();
   if (cls == "Path") return runPathCase(cs, tmp);
+  if (cls == "Hist") return runHistCase(cs, tmp);
   auto it = registry().find(cls);
   if (it == registry().end()) throw std::runtime_error("no handler for class " + cls);
   Handler& h = it->second;
